@@ -57,6 +57,7 @@ def header(prog, ncpu):
         for o in c['ops']:
             if o['op'] == 'Bind':
                 queues.append(o.get('kind', 'fifo'))
+    queues = [{'wfifo': 'fifo', 'wprio': 'prio'}.get(k, k) for k in queues]        # (gate-instrumented wrappers of the same queues)
     h = dict(BASE)
     h.update({'ev': 'reset', 'ep': prog['id'], 'mode': 'free' if prog['sched']['kind'] == 'free' else 'gated',
               'wk': cfg.get('wk', 'plain'), 'hconc': cfg.get('conc', 1), 'ncpu': ncpu, 'queues': queues, 'jobs': jobs, 'batches': batches,
